@@ -15,7 +15,7 @@ RULE = (
 ASSUMPTIONS = [
     "attribute keys are strings other than parent/children and the constructor's own parameter names (self; name is present for Node): the importer passes attributes as keyword arguments",
 ]
-GATES = ["mon.C10.export", "mon.C10.import", "mon.C10.roundtrip", "mon.C10.args_unchanged", "C10.maxlevel_cuts", "C10.leaf_attrs", "C10.empty_children_input", "C10.nested_dictcls", "C10.options_deep", "C10.exporter_reused", "C10.aborted_export_then_reuse"]
+GATES = ["mon.C10.export", "mon.C10.import", "mon.C10.roundtrip", "mon.C10.args_unchanged", "C10.maxlevel_cuts", "C10.leaf_attrs", "C10.empty_children_input", "C10.nested_dictcls", "C10.options_deep", "C10.exporter_reused", "C10.aborted_export_then_reuse", "C10.tree_used_before_export"]
 
 
 def plan(tier, seed, jobs):
@@ -309,6 +309,14 @@ def check_all(ctx, lib, rng, par, attrs, kind, case, starts, mls, opts_idx=None)
     from anytree.exporter import DictExporter
 
     nodes, recorded = build(lib, par, attrs, kind)
+    if case.get("used", len(par) % 2 == 0) and len(par) <= 10:
+        # a tree with a past: the read-only APIs (navigation, iterators, resolver, ...) were used on it before the export;
+        # whatever they leave in the node objects is not an attribute of the node
+        from .. import battery as B
+
+        ctx.count("C10.tree_used_before_export")
+        B.battery(nodes, level=0)
+        case = dict(case, used=True)
     ch = gen.children_of(par)
     idmap = {id(o): i for i, o in enumerate(nodes)}
     opts = option_sets(idmap)
